@@ -41,6 +41,7 @@ def generate(ctx):
     for b in gen.SPECIAL_FLOATS[:3]:
         ctx.add('to_serde_json %s' % gen.hexarg(gen.enc(('a', [('d', b)]))))
     malformed_stream(ctx, ds)
+    from_prim_stream(ctx, ds)
 
 
 def alloc_safe(m):
@@ -119,8 +120,90 @@ def malformed_stream(ctx, ds):
             ctx.add('to_serde_json_object %s' % h, kind='malformed')
 
 
+def f32_to_f64_bits(b):
+    """the double with the value of the f32 pattern b (struct does the widening); a NaN keeps sign and payload and is quiet"""
+    import struct
+    if (b >> 23) & 0xFF == 0xFF and b & 0x7FFFFF:
+        return ((b >> 31) << 63) | (0x7FF << 52) | ((b & 0x7FFFFF) << 29) | (1 << 51)
+    return gen.float_to_bits(struct.unpack('>f', struct.pack('>I', b))[0])
+
+
+def from_prim_stream(ctx, ds):
+    """the From<primitive> impls of from.rs (model coq/ValueApi.v: from_i64, from_u64, from_f64, from_f32, from_bool, from_string,
+    from_unit, from_object, from_vec, from_pairs): every integer type at its limits, f32 patterns of every class (zeros, subnormals,
+    the normal range, infinities, NaNs), f64 patterns, strings through String / &str / Cow, Vec / slice / iterator of i32 and of
+    values, an iterator of (key, value) pairs with repeated keys (the later pair wins).  Diffed against the model; the integer and
+    float cases are also judged on the implementation alone against the expected tree."""
+    r = ctx.rng
+    ctx.from_prim = []
+
+    def add(kind, arg, want=None, *more):
+        c = ctx.add(' '.join(['from_prim', kind, arg] + list(more)))
+        if want is not None:
+            ctx.from_prim.append((c.id, c.line, 'ok ' + gen.vtext(want)))
+    for bits, name in ((8, 'i8'), (16, 'i16'), (32, 'i32'), (64, 'i64'), (64, 'isize')):
+        lo, hi = -(1 << (bits - 1)), (1 << (bits - 1)) - 1
+        for x in sorted(set([lo, lo + 1, -129, -128, -1, 0, 1, 127, 128, hi - 1, hi] + [r.randrange(lo, hi + 1) for _ in range(6)])):
+            if lo <= x <= hi:
+                add(name, str(x), ('i', x))
+    for bits, name in ((8, 'u8'), (16, 'u16'), (32, 'u32'), (64, 'u64'), (64, 'usize')):
+        hi = (1 << bits) - 1
+        for x in sorted(set([0, 1, 127, 128, 255, 256, hi - 1, hi, hi // 2, hi // 2 + 1] + [r.randrange(0, hi + 1) for _ in range(6)])):
+            if x <= hi:
+                add(name, str(x), ('u', x))
+    f32s = [0, 0x80000000, 1, 2, 0x00400000, 0x007FFFFF, 0x00800000, 0x00800001, 0x3F800000, 0xBF800000, 0x3DCCCCCD, 0x7F7FFFFF, 0xFF7FFFFF,
+            0x7F800000, 0xFF800000, 0x7FC00000, 0xFFC00000, 0x7FC00001, 0x7FFFFFFF, 0x80000001, 0x807FFFFF, 0x00000100, 0x00012345]
+    f32s += [r.getrandbits(32) for _ in range(ctx.scale(300, 5000))]
+    f32s += [(r.getrandbits(1) << 31) | r.getrandbits(r.randrange(1, 24)) for _ in range(ctx.scale(60, 1000))]        # subnormals of every width
+    for b in f32s:
+        signalling = (b >> 23) & 0xFF == 0xFF and b & 0x7FFFFF and not b & 0x400000
+        if signalling:
+            continue          # a signalling NaN: whether `as f64` sets the quiet bit is left to the platform by the language
+        for kind in ('f32', 'of32'):
+            add(kind, '%08x' % b, ('d', f32_to_f64_bits(b)))
+    for b in gen.FLOAT_POOL + gen.SPECIAL_FLOATS + [r.getrandbits(64) for _ in range(50)]:
+        for kind in ('f64', 'of64'):
+            add(kind, '%016x' % b, ('d', b))
+    add('bool', '1', ('b', True))
+    add('bool', '0', ('b', False))
+    add('unit', '-', ('n',))
+    strs = [b'', b'a', 'é€😀'.encode(), b'a"b\\c\n', b'\x00\x7f'] + [ctx.g.string() for _ in range(20)]
+    for st in strs:
+        for kind in ('string', 'str', 'cow'):
+            add(kind, gen.hexarg(st), ('s', st))
+    for _ in range(30):
+        xs = [r.choice([0, 1, -1, 2147483647, -2147483648, r.randrange(-1000, 1000)]) for _ in range(r.randrange(0, 6))]
+        for kind in ('vec_i32', 'slice_i32', 'iter_i32'):
+            add(kind, ','.join(str(x) for x in xs) or '_', ('a', [('i', x) for x in xs]))
+    add('vec_str', gen.hexlist(strs[:4]), ('a', [('s', x) for x in strs[:4]]))
+    add('vec_str', '_', ('a', []))
+    for v in ds[:120] + r.sample(ds, min(len(ds), 80)):
+        if gen.nodes(v) > 300:
+            continue
+        if v[0] == 'a':
+            for kind in ('vec_value', 'iter_value'):
+                add(kind, gen.vtext(v), v)
+        if v[0] == 'o':
+            add('object', gen.vtext(v), v)
+            # the members in a shuffled order with some of them repeated under the same key with another value: the LAST pair of a key wins
+            pairs = list(v[1]) + [(k, ('s', b'early')) for k, _ in v[1][:2]]
+            r.shuffle(pairs)
+            final = {}
+            for k, x in pairs:
+                final[k] = x
+            add('pairs', gen.hexlist([k for k, _ in pairs]), ('o', sorted(final.items())), gen.vtext(('a', [x for _, x in pairs])))
+
+
+def judge_from_prim(ctx):
+    for cid, line, want in getattr(ctx, 'from_prim', []):
+        o = ctx.impl.get(cid, 'missing')
+        if o != want:
+            ctx.violate('a From<..> for Value conversion does not build the expected value', case=line[:300], expected=want[:300], observed=o[:300])
+
+
 def judge(ctx):
     impl = ctx.impl
+    judge_from_prim(ctx)
     for v, ids in ctx.trials:
         sj, so, vs, rt, ts = [impl.get(i, 'missing') for i in ids]
         case = gen.vtext(v)
